@@ -6,8 +6,10 @@ package main
 
 import (
 	"encoding/json"
+	"encoding/xml"
 	"fmt"
 	"math/rand"
+	"net/http"
 	"net/http/httptest"
 	"sort"
 	"strings"
@@ -35,10 +37,16 @@ type pureCfg struct {
 type pureKey struct {
 	M, Path, Origin, Acrm, AE, Acc string
 	Gz                             string // != "": a gzip-encoded JSON entity naming this string, read by the handler
+	Adm                            string // header X-Admin (a route condition looks at it)
 }
 
 func (k pureKey) String() string {
-	return strings.Join([]string{k.M, k.Path, k.Origin, k.Acrm, k.AE, k.Acc, k.Gz}, "|")
+	return strings.Join([]string{k.M, k.Path, k.Origin, k.Acrm, k.AE, k.Acc, k.Gz, k.Adm}, "|")
+}
+
+type pureEntity struct {
+	XMLName xml.Name `json:"-" xml:"e"`
+	A       string   `json:"a" xml:"a"`
 }
 
 type pureBody struct {
@@ -120,6 +128,13 @@ func buildPureContainer(cfg pureCfg) *restful.Container {
 		}
 		resp.Write([]byte(fmt.Sprintf("read:%s:%d", e.Name, len(e.Items))))
 	}))
+	// a route only administrators have (a condition on a request header), next to one everybody has
+	a.Route(a.GET("/adm/zone").Operation("getAdm").To(h))
+	a.Route(a.DELETE("/adm/zone").Operation("deleteAdm").If(func(r *http.Request) bool { return r.Header.Get("X-Admin") == "1" }).To(h))
+	// an entity in the representation the client prefers
+	a.Route(a.GET("/ent").Operation("getEnt").Produces(restful.MIME_JSON, restful.MIME_XML).To(func(req *restful.Request, resp *restful.Response) {
+		resp.WriteEntity(pureEntity{A: "x"})
+	}))
 	b := new(restful.WebService).Path("/b/{w}")
 	b.Filter(func(req *restful.Request, resp *restful.Response, chain *restful.FilterChain) {
 		resp.AddHeader("X-Svc", req.PathParameter("w"))
@@ -138,12 +153,19 @@ func pureKeys(r *rand.Rand) []pureKey {
 		{M: "OPTIONS", Path: "/b/u", Origin: "http://a.com", Acrm: "PUT"},
 		{M: "OPTIONS", Path: "/b/u/12", Origin: "http://b.org", Acrm: "POST"},
 		{M: "OPTIONS", Path: "/a/lit", Origin: "http://b.org", Acrm: "GET", AE: "gzip"},
+		{M: "OPTIONS", Path: "/a/adm/zone", Adm: "1"},
+		{M: "OPTIONS", Path: "/a/adm/zone"},
+		{M: "OPTIONS", Path: "/a/adm/zone", Origin: "http://a.com", Acrm: "DELETE", Adm: "1"},
+		{M: "OPTIONS", Path: "/a/adm/zone", Origin: "http://a.com", Acrm: "DELETE"},
+		{M: "GET", Path: "/a/ent", Acc: "application/xml;q=high, application/json;q=0.5"},
+		{M: "GET", Path: "/a/ent", Acc: "application/xml;q=, application/json"},
+		{M: "GET", Path: "/a/ent", Acc: "application/xml;q=0.5, application/json;q=0.6"},
 		{M: "POST", Path: "/a/echo", Gz: "one"},
 		{M: "POST", Path: "/a/echo", Gz: "two"},
 		{M: "POST", Path: "/a/echo", Gz: "three", AE: "gzip"},
 	}
 	paths := []string{"/a/1", "/a/2", "/a/lit", "/a/7/sub/x/y", "/a/8/sub/z", "/b/u", "/b/v", "/b/u/12", "/nope", "/a/1/"}
-	for len(keys) < 21 {
+	for len(keys) < 28 {
 		k := pureKey{M: pick(r, []string{"GET", "GET", "GET", "PUT", "OPTIONS", "POST"}), Path: pick(r, paths),
 			Origin: pick(r, []string{"", "", "http://a.com", "http://b.org"}), AE: pick(r, []string{"", "gzip", "deflate"}),
 			Acc: pick(r, []string{"", "application/json", "text/plain"})}
@@ -175,7 +197,7 @@ type pureProj struct {
 }
 
 func pureObserve(c *restful.Container, k pureKey, rid string) (pureProj, bool) {
-	hdr := [][2]string{{"X-Rid", rid}, {"Origin", k.Origin}, {"Access-Control-Request-Method", k.Acrm}, {"Accept-Encoding", k.AE}, {"Accept", k.Acc}}
+	hdr := [][2]string{{"X-Rid", rid}, {"Origin", k.Origin}, {"Access-Control-Request-Method", k.Acrm}, {"Accept-Encoding", k.AE}, {"Accept", k.Acc}, {"X-Admin", k.Adm}}
 	var body []byte
 	if k.M == "POST" {
 		hdr = append(hdr, [2]string{"Content-Type", "application/json"})
